@@ -45,7 +45,10 @@ def main(tier):
     chk.rule("SUM", "value_balance sums all pools", floor=4)
     chk.rule("PS-1", "sibling pool code is a consistent renaming", floor=60)
     chk.rule("PS-3", "pool counts reach the matching fee_required slots", floor=2)
-    chk.rule("SIGN", "the signed input is the one committed to", floor=3)
+    chk.rule("PS-4", "pool-generic helpers are not handed operands of two pools", floor=4)
+    chk.rule("USE", "whoever inspects an Orchard-family builder's contents consults every list that "
+             "the builder's adders fill", floor=2)
+    chk.rule("SIGN", "the signed input is the one committed to", floor=5)
     chk.rule("control", "positive controls", floor=1)
     ps_rules.ps1(chk, FILES)
     w = zf.World(extract.facts_dir("all"), ["zcash_primitives", "zcash_transparent", "pczt"])
@@ -54,6 +57,7 @@ def main(tier):
         return f.p.startswith("zcash_primitives::transaction::builder::") and "::tests::" not in f.p \
             and "::testing" not in f.p
     chk.analysed["ps3_calls"] = ps_rules.ps3(chk, w, scope)
+    chk.analysed["ps4_calls"] = ps_rules.ps4(chk, w, scope)
     for rx in BUILD_FNS:
         fs = [f for f in w.fns.values() if re.search(rx, f.p)]
         if len(fs) != 1:
@@ -63,6 +67,7 @@ def main(tier):
     value_balance(chk, w)
     deferred_sum(chk, w)
     sign(chk, w)
+    content_lists(chk, w, scope)
     chk.finish()
 
 
@@ -220,6 +225,46 @@ def value_balance(chk, w):
         chk.fail("SUM", "value_balance/sum", "balances are not added with the checked Sum", f.span.loc())
 
 
+ADDER_LIST = {"add_spend": "spends", "add_spend_unwitnessed": "spends", "add_output": "outputs",
+              "add_change_output": "changes"}
+OB = r"^orchard::builder::Builder::"
+
+
+def content_lists(chk, w, scope):
+    """cross-check of the sibling inspections of an orchard::builder::Builder (bundle-in-use
+    predicates, action counting): each must look at every content list some adder of this module
+    fills - a change-only bundle is still a bundle"""
+    ref = set()
+    users = {}
+    for f in w.fns.values():
+        root = w.fns.get(f.root) if f.is_closure() else f
+        if root is None or not scope(root):
+            continue
+        for bb, t in f.body.calls():
+            if f.body.blocks[bb].cleanup or t.callee.indirect is not None:
+                continue
+            m = re.match(OB + r"(\w+)$", t.callee.target_p())
+            if not m:
+                continue
+            if m.group(1) in ADDER_LIST:
+                ref.add(ADDER_LIST[m.group(1)])
+            elif m.group(1) in ADDER_LIST.values():
+                users.setdefault(f.p, (f, set()))[1].add(m.group(1))
+    if not ref:
+        chk.fail("USE", "adders/missing", "no orchard::builder::Builder adder is called by the builder")
+        return
+    for p, (f, got) in sorted(users.items()):
+        # a pure projection of one list (e.g. an accessor returning the outputs) is not an inspection
+        if len(got) == 1 and f.body.local_ty(0).startswith("&"):
+            continue
+        if got >= ref:
+            chk.ok("USE", "%s consults %s" % (p.split("builder::", 1)[-1], sorted(got)), sample=True)
+        else:
+            chk.fail("USE", p, "%s inspects the bundle builder's %s but not its %s: a bundle that "
+                     "consists only of the latter is treated as absent" % (p.split("builder::", 1)[-1],
+                     sorted(got), sorted(ref - got)), f.span.loc())
+
+
 def sign(chk, w):
     fs = [f for f in w.fns.values() if f.p.endswith("::apply_signatures") and
           "zcash_transparent::builder" in f.p and "::tests::" not in f.p]
@@ -232,28 +277,80 @@ def sign(chk, w):
     naggs = 0
     for c in clos:
         du = defuse.DefUse(c.body)
-        for blk in c.body.blocks:
+        sites = []          # (bb, span, {field: origin in terms of the closure's arguments})
+        for bi, blk in enumerate(c.body.blocks):
+            if blk.cleanup:
+                continue
             for s in blk.stmts:
                 if s.kind == "=" and s.rv.kind == "agg" and s.rv.agg[0] == "adt" and \
                         s.rv.agg[1].endswith("sighash::SignableInput"):
-                    naggs += 1
-                    fields = dict(zip(s.rv.agg[3], s.rv.ops))
-                    o = {k: du.origin(v) for k, v in fields.items()}
-                    t = {k: defuse.show(v) for k, v in o.items()}
-                    base_index = _base(o.get("index"))
-                    base_value = _base(o.get("value"))
-                    base_spk = _base(o.get("script_pubkey"))
-                    ok = (base_index is not None and base_index == base_value == base_spk and
-                          ".0" in t["index"] and ".1" in t["value"] and "coin" in t["value"] and
-                          "coin" in t["script_pubkey"] and "value(" in t["value"] and
-                          "script_pubkey(" in t["script_pubkey"])
-                    if ok:
-                        chk.ok("SIGN", "SignableInput at %s: index, value and script_pubkey come from "
-                               "the same enumeration element" % s.span.loc(), sample=True)
-                    else:
-                        chk.fail("SIGN", "%s/SignableInput#%d" % (c.p, naggs), "the sighash input is "
-                                 "built from index=%s value=%s script_pubkey=%s: not the same input"
-                                 % (t.get("index"), t.get("value"), t.get("script_pubkey")), s.span.loc())
+                    sites.append((bi, s.span, {k: du.origin(v) for k, v in zip(s.rv.agg[3], s.rv.ops)}))
+            t = blk.term
+            # a helper that builds the SignableInput: its fields in terms of the call's arguments
+            if t.kind == "call" and t.callee.indirect is None and t.callee.target_id() in w.fns:
+                g = w.fns[t.callee.target_id()]
+                if "SignableInput" not in g.body.local_ty(0):
+                    continue
+                gdu = defuse.DefUse(g.body)
+                actual = [du.origin(a) for a in t.args]
+                for gblk in g.body.blocks:
+                    for s in gblk.stmts:
+                        if s.kind == "=" and s.rv.kind == "agg" and s.rv.agg[0] == "adt" and \
+                                s.rv.agg[1].endswith("sighash::SignableInput"):
+                            sites.append((bi, t.span, {k: _subst(gdu.origin(v), actual)
+                                                       for k, v in zip(s.rv.agg[3], s.rv.ops)}))
+        # which spend kind is each site decided for?
+        kinds = {}
+        for bi, blk in enumerate(c.body.blocks):
+            t = blk.term
+            if blk.cleanup or t.kind != "switch":
+                continue
+            o = du.origin(t.discr)
+            if o[0] == "disc" and o[1][0] == "field" and o[1][2] == ".spend_info":
+                names = [v["name"] for v in (w.adts.get("zcash_transparent::builder::SpendInfo") or
+                                             {"variants": []})["variants"]]
+                reach = {v: c.body.reachable(tb) | {tb} for v, tb in t.arms}
+                for v, r in reach.items():
+                    others = set().union(*[x for u, x in reach.items() if u != v]) if len(reach) > 1 else set()
+                    for b2 in r - others:
+                        if isinstance(v, int) and v < len(names):
+                            kinds[b2] = names[v]
+        for bi, span, o in sites:
+            naggs += 1
+            t = {k: defuse.show(v) for k, v in o.items()}
+            base_index = _base(o.get("index"))
+            base_value = _base(o.get("value"))
+            base_spk = _base(o.get("script_pubkey"))
+            ok = (base_index is not None and base_index == base_value == base_spk and
+                  ".0" in t["index"] and ".1" in t["value"] and "coin" in t["value"] and
+                  "coin" in t["script_pubkey"] and "value(" in t["value"] and
+                  "script_pubkey(" in t["script_pubkey"])
+            if ok:
+                chk.ok("SIGN", "SignableInput at %s: index, value and script_pubkey come from "
+                       "the same enumeration element" % span.loc(), sample=True)
+            else:
+                chk.fail("SIGN", "%s/SignableInput#%d" % (c.p, naggs), "the sighash input is "
+                         "built from index=%s value=%s script_pubkey=%s: not the same input"
+                         % (t.get("index"), t.get("value"), t.get("script_pubkey")), span.loc())
+            # the script the signature commits to is the one that is executed
+            kind = kinds.get(bi)
+            code = t.get("script_code", "")
+            if kind == "P2sh":
+                good = re.search(r"as P2sh\)\.redeem_script", code) is not None and \
+                    _base(o.get("script_code")) == base_spk
+                want = "the redeem script of the same input"
+            elif kind == "P2pkh":
+                good = code == t.get("script_pubkey")
+                want = "the coin's script_pubkey"
+            else:
+                good, want = False, "decided under a test of the input's spend kind"
+            if good:
+                chk.ok("SIGN", "SignableInput at %s (%s input): script_code is %s" % (span.loc(), kind, want),
+                       sample=True)
+            else:
+                chk.fail("SIGN", "%s/script_code/%s#%d" % (c.p, kind, naggs), "for a %s input the "
+                         "signature commits to script_code = %s, expected %s: the signature does not "
+                         "verify under the script that is executed" % (kind, code[:90], want), span.loc())
     if naggs < 2:
         chk.fail("SIGN", "aggregates", "only %d SignableInput constructions found in apply_signatures"
                  % naggs, f.span.loc())
@@ -270,6 +367,23 @@ def sign(chk, w):
         chk.fail("SIGN", "zip-order", "signatures are not zipped onto the inputs in order (zip on vin: "
                  "%s, reordering calls: %s)" % (okz, reorder), f.span.loc())
     chk.ok("control", "%d SignableInput constructions examined" % naggs) if naggs else None
+
+
+def _subst(o, actual):
+    """replace ('arg', i) in a helper's origin tree by the call site's i-th argument origin"""
+    if not isinstance(o, tuple):
+        return o
+    if o[0] == "arg" and o[1] < len(actual):
+        return actual[o[1]]
+    out = []
+    for x in o:
+        if isinstance(x, tuple):
+            out.append(_subst(x, actual))
+        elif isinstance(x, list):
+            out.append([_subst(y, actual) for y in x])
+        else:
+            out.append(x)
+    return tuple(out)
 
 
 def _base(o):
